@@ -6,6 +6,11 @@ set -u
 export GOFLAGS=-mod=mod GOPROXY=off GOSUMDB=off GOTOOLCHAIN=local
 export VERIF_ROOT="$PWD"
 tier="$1"; seeds="$2"; shift 2
+# with `vp run --with-repo` the sweep builds against the snapshot of /repo's HEAD
+# instead of the live working tree (which may be carrying a seeded change)
+if [ -n "${VP_RUN_REPO:-}" ]; then
+  sed -i "s#=> /repo#=> ${VP_RUN_REPO}#" harness/go.mod
+fi
 (cd harness && go build -o ../bin/vcheck ./cmd/vcheck) || exit 2
 rc=0
 for s in $seeds; do
